@@ -30,7 +30,7 @@ EXPORT = [
         (("cell",), [(2, ("cell",))], []),
         (("reflect_vert",), [(2, ("reflect_vert",))], [(2, ("reflect_horiz",))]),
         (("reflect_horiz",), [(2, ("reflect_horiz",))], [(2, ("reflect_vert",))]),
-        (("loc",), [(2, ("loc",))], []),
+        (("loc",), [(2, ("loc",))], [(2, ("cell",)), (2, ("reflect_vert",)), (2, ("reflect_horiz",))]),
     ]),
     ("assignment", [EXP, r"^&stack::Assign$"], r"Result<%sAssign," % TP, [
         (("net",), [(2, ("net",))], []), (("at",), [(2, ("at",))], [])]),
@@ -60,7 +60,7 @@ IMPORT = [
         (("cell",), [(2, ("cell",))], []),
         (("reflect_vert",), [(2, ("reflect_vert",))], [(2, ("reflect_horiz",))]),
         (("reflect_horiz",), [(2, ("reflect_horiz",))], [(2, ("reflect_vert",))]),
-        (("loc",), [(2, ("loc",))], []),
+        (("loc",), [(2, ("loc",))], [(2, ("cell",)), (2, ("reflect_vert",)), (2, ("reflect_horiz",))]),
     ]),
     ("assignment", [IMP, r"^&%sAssign$" % TP], r"Result<stack::Assign,", [
         (("net",), [(2, ("net",))], []), (("at",), [(2, ("at",))], [])]),
